@@ -409,13 +409,16 @@ theorem finalize_boot {cfg : Cfg} {st : Store} (hno : lookup st manifestName = n
 
 /-! ### the probing log is a prefix of the planned writes -/
 
-theorem writesOf_runPlan_prefix (ow : Bool) (st : Store) (plan : List (Bool × String × Obj)) :
-    ∃ j, writesOf (runPlan ow st plan) = (plan.map (·.2)).take j := by
+theorem writesOf_runPlan_prefix (ow : Bool) (st : Store) (plan : List (Bool × Bool × String × Obj)) :
+    ∃ j, writesOf (runPlan ow st plan) = (plan.map (·.2.2)).take j := by
   induction plan generalizing st with
   | nil => exact ⟨0, rfl⟩
   | cons hd t ih =>
-    obtain ⟨probe, p, o⟩ := hd
+    obtain ⟨probe, claimed, p, o⟩ := hd
     unfold runPlan
+    by_cases hcl : claimed = true
+    · rw [if_pos hcl]; exact ⟨0, rfl⟩
+    rw [if_neg hcl]
     by_cases hc : (probe && (lookup st p).isSome && !ow) = true
     · rw [if_pos hc]; exact ⟨0, rfl⟩
     · rw [if_neg hc]
@@ -427,14 +430,28 @@ theorem writesOf_runPlan_prefix (ow : Bool) (st : Store) (plan : List (Bool × S
       · show writesOf (StoreOp.ex p :: StoreOp.wr p o :: _) = _
         simp [writesOf, hj]
 
+theorem uploadPlan_writes (cfg : Cfg) (order : List (String × Cert)) (m : Manifest) :
+    (uploadPlan cfg m order).map (·.2) = (uploadWrites cfg m order).1 := by
+  induction order generalizing m with
+  | nil => rfl
+  | cons hd t ih =>
+    obtain ⟨k, c⟩ := hd
+    simp only [uploadPlan, uploadWrites, List.map_cons, ih]
+
 theorem planned_writes (cfg : Cfg) (m : Manifest) (mu : Mut) (order : List (String × Cert)) :
-    (planned cfg m mu order).map (·.2) = fullWrites cfg m mu order := by
+    (planned cfg m mu order).map (·.2.2) = fullWrites cfg m mu order := by
   unfold planned fullWrites
-  have hid : ∀ l : List (String × Obj), List.map ((fun x : Bool × String × Obj => x.2) ∘ fun w => (true, w)) l = l := by
+  have hid : ∀ l : List (Bool × String × Obj),
+      List.map ((fun x : Bool × Bool × String × Obj => x.2.2) ∘ fun w => (true, w)) l = l.map (·.2) := by
     intro l; induction l with
     | nil => rfl
     | cons a t ih => simp [ih]
-  rw [List.map_append, List.map_map, hid]
+  have hid2 : ∀ l : List (String × Obj),
+      List.map ((fun x : Bool × Bool × String × Obj => x.2.2) ∘ fun w => (true, false, w)) l = l := by
+    intro l; induction l with
+    | nil => rfl
+    | cons a t ih => simp [ih]
+  rw [List.map_append, List.map_append, List.map_map, List.map_map, hid, hid2, uploadPlan_writes]
   split <;> simp
 
 /-! ### histories, and the concrete data of the non-vacuity examples -/
